@@ -863,6 +863,16 @@ def check_property(prop, tier="quick", seed=0):
                 results.append((k, r))
         bat = bat_fut.result()
         kani = kani_fut.result() if kani_fut else None
+    # ---- Kani twins of the leaf kernels: thorough tier always; quick tier when the Verus unit could not decide or failed
+    twins = {}
+    for u in units:
+        if u not in list_twins():
+            continue
+        unit_undecided = any(x.startswith(u + ":") or x.startswith(u + "[") for x in undecided)
+        unit_res = [r for (uu, s0), r in results if uu == u]
+        unit_failed = any(r["an"]["failures"] or r["an"]["undecided"] for r in unit_res)
+        if tier == "thorough" or unit_undecided or unit_failed:
+            twins[u] = run_twin(u)
     known, fixed = load_known()
     violations, known_hits = [], []
     functions, obligations, discharged = [], 0, 0
@@ -921,6 +931,51 @@ def check_property(prop, tier="quick", seed=0):
         if len(set(c > 0 for c in counts)) > 1:
             unstable.append(u)
             undecided.append(f"{u}: verdict differs between SMT seeds (unstable proof)")
+    # ---- Kani twins
+    twin_ev = []
+    for u, tw in twins.items():
+        if not tw["ran"]:
+            undecided.append(f"{u}: kani twin: {tw['note']}")
+            twin_ev.append({"unit": u, "ran": False, "note": tw["note"]})
+            continue
+        full = [h for h in tw["harnesses"] if not h["name"].endswith("_bounded")]
+        bnd = [h for h in tw["harnesses"] if h["name"].endswith("_bounded")]
+        for h in tw["harnesses"]:
+            if h["ok"] is False:
+                cl = h["name"].split("::")[-1]
+                v = {"unit": u + " (kani twin)", "items": [h["name"]], "clause": cl, "message": "Kani twin harness failed: the extracted function body violates the contract clause for a concrete operand",
+                     "where": [{"what": "harness", "file": f"spec/twins/{u}.rs", "line": None, "label": "; ".join(h["detail"][:3]), "text": h["name"]}],
+                     "rendered": "\n".join(h["detail"]) + "\n" + twin_counterexample(u, h["name"]), "seed": seed}
+                kn = [k for k in known if k["property"] == prop and k["clause"] == cl]
+                if kn:
+                    known_hits.append((v, kn[0]))
+                else:
+                    violations.append(v)
+            elif h["ok"] is None:
+                undecided.append(f"{u}: kani twin: harness {h['name']} gave no verdict")
+        all_ok = all(h["ok"] for h in tw["harnesses"])
+        if all_ok:
+            # the twin decides the top-level clauses of every function it contains, whatever the shape of the bodies:
+            # lost anchors / unsupported constructs of the Verus unit for these functions are no longer undecided
+            twin_paths = {i["path"] for i in tw["items"]}
+            try:
+                _, parts = read_template(u)
+                unit_paths = {pt[1].path for pt in parts if pt[0] == "item" and pt[1].kind == "fn"}
+            except Undecided:
+                unit_paths = None
+            if unit_paths is not None and unit_paths <= twin_paths:
+                before = len(undecided)
+                undecided[:] = [x for x in undecided if not (x.startswith(u + ":") or x.startswith(u + "["))]
+                if len(undecided) != before:
+                    obligations += len(full)
+                    discharged += len(full)
+                    for h in full:
+                        functions.append({"unit": u + " (kani twin)", "function": h["name"], "ms": round((h["time"] or 0) * 1000, 1), "rlimit": None,
+                                          "success": True, "backend": "kani 0.68 / cbmc 6.11", "cbmc_checks": h["checks"]})
+        twin_ev.append({"unit": u, "ran": True, "cmd": tw["cmd"], "harnesses": [{"name": h["name"], "ok": h["ok"], "cbmc_checks": h["checks"], "s": h["time"]} for h in tw["harnesses"]],
+                        "full_domain": [h["name"] for h in full], "bounded": [h["name"] + " (operands |x| <= 2^7 or a 64-bit boundary value; no float view)" for h in bnd],
+                        "functions": tw["items"], "wall_s": tw.get("wall"),
+                        "note": "same function bodies extracted from /repo, compiled against executable stand-ins (spec/twins/%s.rs); loop-free, full-domain symbolic operands" % u})
     # ---- Kani harnesses on the real crate (loop-free, full-domain => complete proofs)
     kani_ev = None
     if kani is not None:
@@ -975,6 +1030,7 @@ def check_property(prop, tier="quick", seed=0):
             "obligations": obligations, "discharged": discharged,
             "checker_cmd": ("verus work/gen/<unit>.rs --output-json --time-expanded --error-format=json --multiple-errors 20 (one run per unit + one `ensures false` canary run per unit)" if units else "") + ("; " + kani_ev["cmd"] + " (in kani/)" if kani_ev else ""),
             "kani": kani_ev,
+            "kani_twins": twin_ev,
             "trusted_base": sorted(set(trusted)),
             "obligation_counting_rule": "one per Verus function/lemma query (each carries all its safety obligations: overflow, div-by-zero, unwrap/index preconditions, callee preconditions) plus one per contract line tagged with this property",
             "units": units,
@@ -1007,7 +1063,7 @@ def check_property(prop, tier="quick", seed=0):
         os.makedirs(os.path.join(WORK, "replay"), exist_ok=True)
         first_w = bat_viol[0] if bat_viol else None
         for v in violations:
-            rp = os.path.join(WORK, "replay", f"{prop}-{v['unit']}-{re.sub(r'[^A-Za-z0-9_]+', '_', v['clause'])}.json")
+            rp = os.path.join(WORK, "replay", f"{prop}-{re.sub(r'[^A-Za-z0-9_]+', '_', v['unit'])}-{re.sub(r'[^A-Za-z0-9_]+', '_', v['clause'])}.json")
             witness = first_w["witness"] if first_w else None
             with open(rp, "w") as f:
                 json.dump({"property": prop, "obligation": {"unit": v["unit"], "items": v["items"], "clause": v["clause"],
@@ -1285,6 +1341,145 @@ def kani_counterexample(harness):
     return out[i:i + 3000] if i >= 0 else out[-2000:]
 
 
+# --------------------------------------------------------------------------- Kani twins of the leaf kernels
+
+def list_twins():
+    d = os.path.join(SPEC, "twins")
+    return sorted(f[:-3] for f in os.listdir(d) if f.endswith(".rs")) if os.path.isdir(d) else []
+
+
+def assemble_twin(unit):
+    """the twin template: plain Rust + `//@ item` blocks (signature + verbatim body, nothing spliced)"""
+    path = os.path.join(SPEC, "twins", unit + ".rs")
+    out, items = [], []
+    with open(path) as f:
+        lines = f.read().split("\n")
+    i = 0
+    while i < len(lines):
+        ln = lines[i]
+        s = ln.strip()
+        if s.startswith("//@ item"):
+            rest = s[len("//@ item"):].strip()
+            file, ipath = [x.strip() for x in rest.split("::", 1)]
+            sig = None
+            i += 1
+            while i < len(lines) and not lines[i].strip().startswith("//@ end"):
+                t = lines[i].strip()
+                if t.startswith("//@ sig"):
+                    sig = t[len("//@ sig"):].strip()
+                i += 1
+            ex = extract_file(file)
+            cands = ex["by_path"].get(ipath, [])
+            if not cands or cands[0]["kind"] != "fn" or cands[0]["body"] is None:
+                raise Undecided(f"lost-anchor: twin {unit}: item `{ipath}` not found in {file}")
+            x = cands[0]
+            body = ex["src"][x["body"]["start"]:x["body"]["end"]].decode()
+            out.append((sig or x["sig_text"]) + " " + body)
+            items.append({"file": file, "path": ipath, "sha256_body": hashlib.sha256(body.encode()).hexdigest(),
+                          "lines": [byte_line(ex["src"], x["body"]["start"]), byte_line(ex["src"], x["body"]["end"])]})
+        elif s.startswith("//@"):
+            pass
+        else:
+            out.append(ln)
+        i += 1
+    return "\n".join(out) + "\n", items
+
+
+def run_twin(unit, prefix=None):
+    """-> dict(ran, harnesses, items, note)"""
+    try:
+        text, items = assemble_twin(unit)
+    except Undecided as e:
+        return {"ran": False, "note": str(e), "harnesses": [], "items": []}
+    cd = os.path.join(WORK, "twin-" + unit)
+    os.makedirs(os.path.join(cd, "src"), exist_ok=True)
+    with open(os.path.join(cd, "Cargo.toml"), "w") as f:
+        f.write('[package]\nname = "twin-%s"\nversion = "0.1.0"\nedition = "2021"\n[workspace]\n[lints.rust]\nunexpected_cfgs = { level = "allow", check-cfg = [\'cfg(kani)\'] }\n' % unit)
+    with open(os.path.join(cd, "src", "lib.rs"), "w") as f:
+        f.write(text)
+    env = dict(os.environ, CARGO_NET_OFFLINE="true", CARGO_TARGET_DIR=os.path.join(WORK, "twin-target"))
+    # the unchanged bodies are loop-free; `--default-unwind 8` only matters if a changed body introduces a loop, and then an
+    # "unwinding assertion" failure is reported as UNDECIDED, never as a violation
+    cmd = ["cargo", "kani", "-j", str(os.cpu_count() or 8), "--output-format=terse", "--default-unwind", "8"] + (["--harness", prefix] if prefix else [])
+    t0 = time.time()
+    tmo = int(os.environ.get("VERIF_TWIN_TIMEOUT", "600"))
+    try:
+        p = subprocess.Popen(cmd, cwd=cd, env=env, stdout=subprocess.PIPE, stderr=subprocess.STDOUT, text=True, start_new_session=True)
+        try:
+            so, _ = p.communicate(timeout=tmo)
+        except subprocess.TimeoutExpired:
+            import signal
+            os.killpg(os.getpgid(p.pid), signal.SIGKILL)
+            p.communicate()
+            return {"ran": False, "note": f"twin exceeded {tmo}s (a changed body the SAT back end cannot handle in budget)", "harnesses": [], "items": items}
+        p = type("R", (), {"stdout": so, "stderr": ""})()
+    except Exception as e:
+        return {"ran": False, "note": f"twin failed to start: {e}", "harnesses": [], "items": items}
+    out = p.stdout + "\n" + p.stderr
+    if "error: could not compile" in out or re.search(r"^error(\[E\d+\])?:", out, re.M) and "VERIFICATION" not in out:
+        errs = [l for l in out.split("\n") if l.startswith("error")][:4]
+        return {"ran": False, "note": "twin does not compile (the changed body uses something outside the executable stand-ins): " + " | ".join(errs), "harnesses": [], "items": items}
+    thread_h, cur, res = {}, None, {}
+    for ln in out.split("\n"):
+        m = re.match(r"Thread (\d+): (Checking harness (\S+?)\.\.\.)?", ln)
+        if m:
+            cur = m.group(1)
+            if m.group(3):
+                thread_h[cur] = m.group(3)
+                res.setdefault(m.group(3), {"name": m.group(3), "ok": None, "checks": 0, "failed": 0, "time": None, "detail": []})
+            continue
+        if cur is None or cur not in thread_h:
+            continue
+        r = res[thread_h[cur]]
+        m = re.search(r"\*\* (\d+) of (\d+) failed", ln)
+        if m:
+            r["failed"], r["checks"] = int(m.group(1)), int(m.group(2))
+        if "VERIFICATION:- SUCCESSFUL" in ln:
+            r["ok"] = True
+        elif "VERIFICATION:- FAILED" in ln:
+            r["ok"] = False
+        m = re.search(r"Verification Time: ([0-9.]+)s", ln)
+        if m:
+            r["time"] = float(m.group(1))
+        if "Failed Checks" in ln or re.match(r"\s*File:", ln):
+            r["detail"].append(ln.strip())
+    hs = list(res.values())
+    for h in hs:
+        fc = [d for d in h["detail"] if d.startswith("Failed Checks")]
+        if h["ok"] is False and fc and all("unwinding assertion" in d for d in fc):
+            h["ok"] = None   # bound too small for a loop the changed code introduced: undecided
+    if not hs:
+        return {"ran": False, "note": "twin produced no harness results: " + out[-500:], "harnesses": [], "items": items}
+    return {"ran": True, "harnesses": hs, "items": items, "wall": round(time.time() - t0, 1), "note": "", "cmd": " ".join(cmd), "dir": cd}
+
+
+def twin_counterexample(unit, harness):
+    cd = os.path.join(WORK, "twin-" + unit)
+    env = dict(os.environ, CARGO_NET_OFFLINE="true", CARGO_TARGET_DIR=os.path.join(WORK, "twin-target"))
+    short = harness.split("::")[-1]
+    try:
+        p = subprocess.run(["timeout", "-s", "KILL", "300", "cargo", "kani", "--harness", short, "-Z", "concrete-playback", "--concrete-playback=print", "--output-format=terse", "--default-unwind", "8"],
+                           cwd=cd, env=env, capture_output=True, text=True, timeout=400)
+    except subprocess.TimeoutExpired:
+        return "concrete playback timed out"
+    out = p.stdout
+    i = out.find("Concrete playback")
+    return out[i:i + 2500] if i >= 0 else out[-1500:]
+
+
+def cmd_twin(args):
+    r = run_twin(args[0], args[1] if len(args) > 1 else None)
+    if not r["ran"]:
+        print("UNDECIDED:", r["note"])
+        return 2
+    bad = 0
+    for h in r["harnesses"]:
+        print(f"   {'ok  ' if h['ok'] else 'FAIL'} {h['name']} checks={h['checks']} {h['time']}s {' | '.join(h['detail'][:2])}")
+        bad += 0 if h["ok"] else 1
+    print(f"twin {args[0]}: {len(r['harnesses'])} harnesses, {bad} failed, wall {r['wall']}s")
+    return 1 if bad else 0
+
+
 def run_battery(prop, tier):
     """-> dict(ran, witnesses, failing=[{witness, observed}], note)"""
     sys.path.insert(0, os.path.join(VERIF, "tools"))
@@ -1365,6 +1560,12 @@ def main():
         return cmd_mutants(args)
     if cmd == "replay":
         return cmd_replay(args)
+    if cmd == "twin":
+        try:
+            return cmd_twin(args)
+        except Undecided as e:
+            print("UNDECIDED:", e)
+            return 2
     print(__doc__)
     return 2
 
